@@ -5,7 +5,7 @@
    labels: which thread moves, which ready select case is taken, when the context
    ends); [run] skips labels that are not enabled. *)
 From Coq Require Import List ZArith Bool Arith Permutation.
-From GZ Require Import C10.Model C10.Proofs C10.ProofsT C10.ProofsQ C10.ProofsM C10.ProofsS C10.ProofsC C10.ProofsP.
+From GZ Require Import C10.Model C10.Proofs C10.ProofsT C10.ProofsQ C10.ProofsM C10.ProofsS C10.ProofsC C10.ProofsP C10.ProofsL.
 Import ListNotations.
 
 (* At most [workers] mapper functions run at any time (and the pool never holds more
@@ -242,6 +242,23 @@ Theorem ctx_seen_at_select : forall c sched,
 Proof. exact ctx_seen_at_select_l. Qed.
 Print Assumptions ctx_seen_at_select.
 
+(* ---- a panic is never lost ---- *)
+(* Repaired panicChan protocol, either output protocol, a generator that does not panic.  If nothing
+   was cancelled and the context did not end, and some user function (a mapper or the reducer)
+   panicked, then a call that returns does so by panicking (a user panic, or the library's "more
+   than one element" if the reducer also wrote twice) - under every schedule, in particular when
+   the caller reaches its select late.  It rests on the order of the mapper's epilogue (the panic
+   is handed over BEFORE wg.Done: while it is undelivered the collector, hence output, cannot
+   close): Pinned.done_before_write_loses_panic refutes the other order (seeded change C10-9).
+   Pinned.generator_panic_can_be_overtaken shows why the generator is excepted. *)
+Theorem panic_is_never_lost : forall c sched o,
+  variant_of c = VFixed -> no_gen_panic c ->
+  let s := run c (init c) sched in
+  result s = Some o -> g_panics s <> [] -> g_cancels s = [] -> ctx_done s = false ->
+  exists p, o = OPanic p.
+Proof. exact panic_is_never_lost_l. Qed.
+Print Assumptions panic_is_never_lost.
+
 (* ---- termination ---- *)
 (* every step of every thread, and the context event, strictly decreases [measure] (any variant,
    any scripts) *)
@@ -390,3 +407,7 @@ Example fair_f_finishes :
   let s := run ex_cfg_safe (init ex_cfg_safe) (prefix fair_f 4000) in
   stuck ex_cfg_safe s = true /\ clean s = true.
 Proof. vm_compute. split; reflexivity. Qed.
+
+(* non-vacuity of panic_is_never_lost: ex_cfg's generator does not panic *)
+Example ex_cfg_no_gen_panic : no_gen_panic ex_cfg.
+Proof. intros k H. simpl in H. repeat (destruct H as [H|H]; [discriminate|]). exact H. Qed.
